@@ -111,7 +111,19 @@ def run_shard(desc):
             items.append(("special", s, None))
     elif kind == "long":
         for _ in range(n):
-            if rnd.random() < 0.5:
+            if rnd.random() < 0.25:
+                # flat in the source, deep in the rendering: every `x not OP y` needs a bracket in expr()
+                k = rnd.choice([30, 47, 48, 49, 50, 63, 64, 65, 100, 127, 128, 129, 200])
+                ops_ = rnd.choice([["in"], ["in", "=="], ["+", "in", "<", "&&"], ["="]])
+                toks = ["x"]
+                for i in range(k):
+                    toks += (["not"] if rnd.random() < 0.9 else []) + [rnd.choice(ops_), rnd.choice(["l%d" % i, "[1]", "y"])]
+                try:
+                    t = ref.rparse(ref.rtok(" ".join(toks)))
+                except (ref.Abstain, ref.ParseError, ref.LexError):
+                    continue
+                items.append(("long", " ".join(toks), t))
+            elif rnd.random() < 0.5:
                 toks = gen.long_chain_tokens(rnd, rnd.choice([64, 65, 128, 129, 130, 200, 300]))
                 try:
                     t = ref.rparse(ref.rtok(" ".join(toks)))
@@ -145,8 +157,8 @@ def run_shard(desc):
                     steps.append({"op": "reg_infix", "name": nm, "prec": prec, "type": "CALC", "assoc": assoc, "beh": {"id": hid, "ret": "tag"}})
                     meta.append(None)
                 if phase == 0:
-                    for wn, role in (("pct", "postfix"), ("bang2", "postfix"), ("neg2", "prefix")):
-                        if rnd.random() < 0.7:
+                    for wn, role in (("pct", "postfix"), ("bang2", "postfix"), ("neg2", "prefix"), ("~", "postfix"), ("§", "prefix"), ("#pct", "postfix"), ("@up", "postfix"), ("_dec", "postfix"), ("é", "prefix"), ("!!", "postfix"), ("°", "postfix")):
+                        if rnd.random() < 0.45:
                             (tab.postfix if role == "postfix" else tab.prefix).add(wn)
                             hid += 1
                             steps.append({"op": "reg_" + role, "name": wn, "beh": {"id": hid, "ret": "tag"}})
